@@ -893,7 +893,12 @@ class PVLParser(object):
                 + f'at the end, but found "{t}"'
             )
 
-        delim_strip = t.strip("".join(self.grammar.units_delimiters))
+        # Take off the two delimiters only: another one inside of them is
+        # not a units character (see below), wherever it stands.
+        delim_strip = t[
+            len(self.grammar.units_delimiters[0]):
+            len(t) - len(self.grammar.units_delimiters[1])
+        ]
 
         units_value = delim_strip.strip("".join(self.grammar.whitespace))
 
